@@ -158,7 +158,7 @@ def run_job(job, acct):
         for sig, detail in r.violations:
           (acct.known if sig in known else acct.violation)(sig, prog, detail)
     if job['shard'] == 0 and job['complete']:
-      acct.exhaustive_parts.append('all trees with k=%d leaves, nesting depth<=%d, 9-letter alphabet x {default, stop_on_first_failure}' % (
+      acct.exhaustive_parts.append('all trees with k=%d leaves, nesting depth<=%d, 10-letter alphabet x {default, stop_on_first_failure}' % (
           job['k'], job['maxdepth']))
 
 
